@@ -112,6 +112,11 @@ func interactionPrograms() []string {
 			out = append(out, fmt.Sprintf(`for i = 1:4 {for q = 2 {if i == 1 && q == 0 {%s}}}; for j = 10 {for z = 10 {}}; println(%s)`, loopB, name))
 			out = append(out, fmt.Sprintf(`f = func(n) {%s; ++n; --n; ++n; println(%s, n); %s}; println(f(5)); for j = 10 {}; println(catch(%s).err)`, parB, name, name, name))
 			out = append(out, fmt.Sprintf(`%s0 = 0; f = func(n) {g = func() {%s}; g(); ++n; %s}; println(catch(f(5)).err)`, name, strings.ReplaceAll(parB, name, name+"0"), name+"0"))
+			if name == "k" { // the target already exists in an outer scope: first write to it from this frame
+				out = append(out, fmt.Sprintf(`k = 100; f = func(n) {%s; ++n; --n; ++n; println(k, n); k}; println(f(5)); for j = 10 {}; println(k)`, parB))
+				out = append(out, fmt.Sprintf(`k = 100; f = func() {for i = 3 {if i == 0 {%s}; println(k)}; k}; println(f()); for j = 10 {}; println(k)`, loopB))
+				out = append(out, fmt.Sprintf(`k = 100; f = func() {g = func(n) {%s; ++n; k}; g(7)}; println(f(), k)`, parB))
+			}
 		}
 	}
 	// containers reached through references
